@@ -418,7 +418,12 @@ class MonSimulation(ciw.Simulation):
         tr = self.tr
         _dispatch(self, "pre_any_event", next_active_node)
         if tr.event_no >= self.K:
-            raise E.Abort()
+            # lemma-guided deepening: a path on which a monitor's lemma (a fact stronger than the property) already
+            # failed is followed a few events past the bound, looking for a violation of the property itself
+            extra = self.flags.get("deepen", 0)
+            if not (extra and tr.event_no < self.K + extra and any(t.startswith("lemma:") for t in ex.tags)):
+                raise E.Abort()
+            ex.seen("deepened_events")
         tr.event_no += 1
         ex.events += 1
         ctx = {}
